@@ -40,3 +40,45 @@ def run(ctx):
     P.check_ops("K2-op", PRE + POST)
     for hook in ["pre_create_transform", "pre_modify", "pre_batch_modify", "post_modify", "post_batch_modify", "post_repl_incremental"]:
         hook_nontrivial(ctx, "K2-hook-body", "spn", "Spn", hook)
+    spn_regenerated_for_every_account_and_group(ctx)
+
+
+# ---------------------------------------------------------------------------------------------------------------------
+# The pre-write hooks go through Spn::modify_inner, which regenerates the spn of EVERY account / group candidate from its
+# name and the current domain name. Revive and replication rely on that: a recycled entry keeps its old spn across a domain
+# rename, and only the unconditional regeneration on revive corrects it. (added after seeded change C22: regeneration skipped
+# when name and spn equal the pre-image)
+
+def spn_regenerated_for_every_account_and_group(ctx):
+    from .lib.hir import walk, unwrap, tokens, has_token
+    from .lib import pathcond as pc
+    R = "K3-spn-regenerated-unconditionally"
+    LIBC = "kanidmd_lib"
+    f = ctx.fn(LIBC, "kanidmd_lib::plugins::spn::Spn::modify_inner")
+
+    def is_set(n):
+        return (n.get("e") == "mcall" and n.get("name") in ("set_ava_set", "set_ava") and not n.get("exp")
+                and has_token(tokens({"a": n.get("args", [])}), "def", "Attribute::Spn"))
+    binds = pc.collect_binds(f["body"])
+    sites = pc.site_conditions(f["body"], is_set)
+    ctx.floor(R, "spn assignments in Spn::modify_inner", len(sites), 1)
+    for (site, conds) in sites:
+        extra = []
+        lits = pc.implied(conds, binds)
+        for (pol, leaf) in lits.values():
+            toks = pc.leaf_tokens(leaf)
+            allowed = (has_token(toks, "def", "EntryClass::Group", "EntryClass::Account") or has_token(toks, "call", "generate_spn")
+                       or has_token(toks, "call", "Iterator::next", "IntoIterator::into_iter")
+                       or all(t.startswith("call:") and ("tracing" in t or "core::" in t) for t in toks if t.startswith("call:")) and not any(t.startswith("field:") for t in toks) and not has_token(toks, "call", "get_ava_set", "attribute_pres", "get"))
+            if not allowed:
+                extra.append(("" if pol else "NOT ") + pc.leaf_key(leaf)[:120])
+        for conj in pc.blocked(conds):
+            for (pol, leaf) in conj:
+                toks = pc.leaf_tokens(leaf)
+                if not (has_token(toks, "def", "EntryClass::Group", "EntryClass::Account") or has_token(toks, "call", "generate_spn")
+                        or has_token(toks, "call", "Iterator::next", "IntoIterator::into_iter")):      # for-loop desugaring
+                    extra.append("blocked: " + pc.leaf_key(leaf)[:120])
+        ctx.check(not extra, R, f["fn"], "set-spn-under-class-test-only", "spn is set for every account/group candidate",
+                  f"Spn::modify_inner sets the spn only when an additional condition holds ({extra[:3]}): an account or group for which it does not hold keeps its "
+                  "stored spn. Entries that were recycled during a domain rename (their spn is not touched by the rename) are revived with name@old-domain, and "
+                  "replicated entries keep a foreign spn", file=f["file"], line=site.get("line"))
